@@ -68,9 +68,15 @@ pub fn build_world(dic: &DicModel, cfg: &CfgModel, ctx: &Ctx) -> Result<(Dict, C
 }
 
 pub fn analyze<'a>(dict: &'a Dict, text: &str, mode: Mode, subset: Option<InfoSubset>) -> Result<MList<'a>, SudachiError> {
-    let mut tok = StatefulTokenizer::new(dict, mode);
+    // two equivalent ways to obtain a tokenizer for (mode, subset): created in the mode, or (for texts of odd
+    // byte length and modes A / B) created in mode C and switched after the field request was made
+    let late = mode != Mode::C && text.len() % 2 == 1;
+    let mut tok = StatefulTokenizer::new(dict, if late { Mode::C } else { mode });
     if let Some(s) = subset {
         tok.set_subset(s);
+    }
+    if late {
+        tok.set_mode(mode);
     }
     tok.reset().push_str(text);
     tok.do_tokenize()?;
